@@ -70,6 +70,13 @@ func expIn(contexts ...[2]string) func(string) expectation {
 	}
 }
 
+// Prometheus and Pyroscope regex matchers (=~, !~) are FULLY ANCHORED by definition, while
+// ClickHouse match() searches: the literal that means "the whole value matches s" is
+// ^(?:s)$. Whether a reader anchors at all is C17's question, not this property's, so the bare
+// regex is accepted as the second reading; either way the harmless and the hostile literal must
+// be built the same way around the user's string.
+var expAnchoredRegex = expIn([2]string{"^(?:", ")$"}, [2]string{"", ""})
+
 // |= and != : "the line contains s".
 func expContains(eff string) expectation {
 	cl := "str"
@@ -387,15 +394,18 @@ func positions() []*position {
 
 	// ---------------- PromQL ----------------
 	for _, op := range []struct{ n, op string }{{"eq", "="}, {"ne", "!="}, {"re", "=~"}, {"nre", "!~"}} {
-		str("promql.matcher."+op.n, formsProm, tpl(`up{job`+op.op+`§}`, promRange))
+		p := str("promql.matcher."+op.n, formsProm, tpl(`up{job`+op.op+`§}`, promRange))
+		if op.n == "re" || op.n == "nre" {
+			p.expect = expAnchoredRegex
+		}
 	}
 	str("promql.matcher.eq.instant", formsProm, tpl(`rate(up{job=§}[1m])`, promInstant))
 	str("promql.matcher.metricname", formsProm, tpl(`{__name__=§, a="b"}`, promRange))
-	str("promql.matcher.re.agg", formsProm, tpl(`sum by (job) (avg_over_time(up{a=~§}[5m]))`, promRange))
+	str("promql.matcher.re.agg", formsProm, tpl(`sum by (job) (avg_over_time(up{a=~§}[5m]))`, promRange)).expect = expAnchoredRegex
 	str("prom.series.match.eq", formsProm, tpl(`up{job=§}`, promSeries))
-	str("prom.series.match.metricname.re", formsProm, tpl(`{__name__=~§}`, promSeries))
+	str("prom.series.match.metricname.re", formsProm, tpl(`{__name__=~§}`, promSeries)).expect = expAnchoredRegex
 	str("prom.values.match.eq", formsProm, func(h string) *request { return promValues("job", `up{a=`+h+`}`) })
-	str("prom.values.match.nre", formsProm, func(h string) *request { return promValues("job", `{a="b", c!~`+h+`}`) })
+	str("prom.values.match.nre", formsProm, func(h string) *request { return promValues("job", `{a="b", c!~`+h+`}`) }).expect = expAnchoredRegex
 	str("prom.values.name", formsPathSeg, func(h string) *request { return promValues(h, "") })
 	str("prom.values.name.match", formsPathSeg, func(h string) *request { return promValues(h, `up{a="b"}`) })
 	p = ident("promql.ident.label", `up{§="x"}`, promRange, regexp.MustCompile(`^[a-zA-Z_][a-zA-Z0-9_]*$`))
@@ -405,7 +415,7 @@ func positions() []*position {
 	// the matcher translation called directly with arbitrary bytes (values the PromQL parser
 	// refuses still arrive through other storage.Queryable callers)
 	str("promql.matcher.direct.value", formsRaw, func(h string) *request { return &request{direct: directPromMatcher("job", h, 0)} })
-	str("promql.matcher.direct.value.re", formsRaw, func(h string) *request { return &request{direct: directPromMatcher("job", h, 2)} })
+	str("promql.matcher.direct.value.re", formsRaw, func(h string) *request { return &request{direct: directPromMatcher("job", h, 2)} }).expect = expAnchoredRegex
 	str("promql.matcher.direct.name", formsRaw, func(h string) *request { return &request{direct: directPromMatcher(h, "v", 0)} })
 
 	// ---------------- TraceQL ----------------
@@ -479,15 +489,18 @@ func positions() []*position {
 	}
 	for _, op := range []struct{ n, op string }{{"eq", "="}, {"ne", "!="}, {"re", "=~"}, {"nre", "!~"}} {
 		op := op
-		str("prof.selector."+op.n, formsGo, profBody("SelectMergeStacktraces", func(h string) string {
+		p := str("prof.selector."+op.n, formsGo, profBody("SelectMergeStacktraces", func(h string) string {
 			return `{"profile_typeID":` + jsonStr(profType) + `,"label_selector":` + jsonStr(sel(`c`+op.op+h)) + `,` + profRange() + `}`
 		}))
+		if op.n == "re" || op.n == "nre" {
+			p.expect = expAnchoredRegex
+		}
 	}
 	for _, special := range []string{"service_name", "__name__", "__period_type__", "__period_unit__", "__sample_type__", "__sample_unit__", "__profile_type__"} {
 		special := special
 		str("prof.selector.special."+special, formsGo, profBody("SelectMergeProfile", func(h string) string {
 			return `{"profile_typeID":` + jsonStr(profType) + `,"label_selector":` + jsonStr(`{a="b", `+special+`=~`+h+`}`) + `,` + profRange() + `}`
-		}))
+		})).expect = expAnchoredRegex
 	}
 	str("prof.selector.series", formsGo, profBody("SelectSeries", func(h string) string {
 		return `{"profile_typeID":` + jsonStr(profType) + `,"label_selector":` + jsonStr(sel(`c=`+h)) + `,` + profRange() + `,"group_by":["a"],"step":15}`
@@ -497,7 +510,7 @@ func positions() []*position {
 	}))
 	str("prof.selector.labelvalues", formsGo, profBody("LabelValues", func(h string) string {
 		return `{"name":"service_name","matchers":[` + jsonStr(`{a="b"}`) + `,` + jsonStr(`{c!~`+h+`}`) + `],` + profRange() + `}`
-	}))
+	})).expect = expAnchoredRegex
 	str("prof.selector.seriesapi", formsGo, profBody("Series", func(h string) string {
 		return `{"matchers":[` + jsonStr(`{a=`+h+`}`) + `],"label_names":["a"],` + profRange() + `}`
 	}))
